@@ -620,10 +620,12 @@ func runParent(cfg *Config, workers int, budget time.Duration, maxCases int64, o
 	for _, k := range p.order {
 		fl = append(fl, p.findings[k])
 	}
-	// timeouts: re-run each once more, alone (the machine is idle now), under the same deadline. A call that
-	// was merely slow while 8 workers competed for the CPU is then told apart from a hang.
+	// timeouts are candidates only: each is re-run alone, one after the other, in a fresh worker (runIsolated: CPU time of
+	// the worker, generous wall-clock deadline). A call that was merely slow on a loaded machine is told apart from a hang
+	// and counted as load-induced.
 	var cwg sync.WaitGroup
-	sem := make(chan struct{}, workers)
+	sem := make(chan struct{}, 1)
+	loadInduced := 0
 	for _, f := range fl {
 		if f.Kind != "timeout" {
 			continue
@@ -633,18 +635,16 @@ func runParent(cfg *Config, workers int, budget time.Duration, maxCases int64, o
 			defer cwg.Done()
 			sem <- struct{}{}
 			defer func() { <-sem }()
-			var wp *workerProc
-			oc := runExplicit(cfg, &wp, f.Case)
-			if wp != nil {
-				wp.quit()
-			}
+			oc := runIsolated(cfg, f.Case)
 			if oc.Kind == "timeout" {
 				f.Confirmed = true
+				f.ConfirmNote = oc.Msg
 				if f.TopFrame == "" && oc.Top != "" {
 					f.TopFrame, f.Stack = oc.Top, oc.Stack
 				}
 			} else {
-				f.ConfirmNote = "re-run alone returned: " + oc.Kind
+				loadInduced += f.Count
+				f.ConfirmNote = "load-induced: re-run alone returned: " + oc.Kind
 				if oc.Res != nil {
 					f.ConfirmNote += fmt.Sprintf(" after %d ms", oc.Res.DurUS/1000)
 				}
@@ -750,6 +750,9 @@ func runParent(cfg *Config, workers int, budget time.Duration, maxCases int64, o
 		"memlimit_mib":       cfg.MemMiB,
 		"budget_s":           budget.Seconds(),
 		"systematic_pass":    sysTot,
+		"load_induced_timeouts": loadInduced,
+		"timeout_rule": fmt.Sprintf("a deadline hit (%s) during the run is a candidate; it is reported as a hang only if the same input, run alone in a fresh worker after the run, "+
+			"makes the worker burn more than %s of CPU (utime+stime from /proc) or does not return within %s", cfg.Timeout, cfg.Timeout*12/10, 10*cfg.Timeout),
 		"result_validation": map[string]any{"what": "after every Extract call that returned, the result is consumed the way filesystem.runExtractor does (nil *Package elements are a finding; " +
 			"Extractor / Locations of every package are written, the inventory is appended); every case of the deterministic prefix and every 16th random case of the extractors " +
 			"that work on an in-memory file system is additionally run through filesystem.Run (real walk + runExtractor) inside the same recover / watchdog window",
@@ -835,7 +838,7 @@ func runReplay(cfg *Config, file string) int {
 		fmt.Printf("etc/os-release (%d bytes): %s\n", len(o), quotePrefix(o, 400))
 	}
 	var wp *workerProc
-	oc := runExplicit(cfg, &wp, x)
+	oc := runIsolated(cfg, x)
 	if wp != nil {
 		wp.quit()
 	}
